@@ -29,6 +29,12 @@ func (m *actionMethod) Name() string {
 	return m.Method.Name()
 }
 
+// Variadic reports whether the method's last parameter is variadic. Params holds
+// its slice type, so a call must spread the argument.
+func (m *actionMethod) Variadic() bool {
+	return m.Method.Type().(*gotypes.Signature).Variadic()
+}
+
 type generated string
 
 const (
